@@ -86,7 +86,11 @@ def regex_cases(ctx, feat):
     for over, pat, inp in REGEX_CORPUS:
         c = sg._cfg(multi_line=True)
         c.update(over)
-        cases.append((c, pat, inp, False, None))
+        cases.append((c, pat, inp, False, None, False))
+    for crlf in (True, False):       # -x under -U: the line anchors of the wrapper follow --crlf, not the (unset) terminator
+        c = sg._cfg(multi_line=True, crlf=crlf)
+        cases.append((c, "a\\r?\\nb|c", b"a\r\nb\r\nc\r\nxc\r\n", False, None, True))
+        cases.append((c, "c", b"c\r\nxc\r\nc\n", False, None, True))
     for _ in range(n):
         c = sg.gen_cfg(rng, multi_line=True)
         if c["ltbyte"] not in (10, 0):
@@ -98,15 +102,15 @@ def regex_cases(ctx, feat):
         if rng.random() < 0.3:
             inp = inp.replace(b"x", b"c")
         reply = (rng.randint(0, 6), rng.choice([1, 2])) if rng.random() < 0.2 else None
-        cases.append((c, pat, inp, rng.random() < 0.2, reply))
+        cases.append((c, pat, inp, rng.random() < 0.2, reply, rng.random() < 0.15))
 
     def rv(reply):
         return "()" if reply is None else vlib.vlist([str(reply[0]), str(reply[1])])
-    lines = [vlib.vlist([sg.cfg_val(c), vlib.vbytes(pat.encode()), vlib.vbytes(inp), vlib.vbool(dot), rv(reply)])
-             for c, pat, inp, dot, reply in cases]
+    lines = [vlib.vlist([sg.cfg_val(c), vlib.vbytes(pat.encode()), vlib.vbytes(inp), vlib.vbool(dot), rv(reply), vlib.vbool(whole)])
+             for c, pat, inp, dot, reply, whole in cases]
     co = vlib.code(1302, lines)
     mlines, idx = [], []
-    for i, ((c, pat, inp, dot, reply), out) in enumerate(zip(cases, co)):
+    for i, ((c, pat, inp, dot, reply, whole), out) in enumerate(zip(cases, co)):
         v = parse_val(out) if out.startswith("(") else None
         if v is None:
             ctx.violation("harness failure " + out[:200], dict(kind=1302, line=lines[i]))
@@ -118,7 +122,7 @@ def regex_cases(ctx, feat):
             bad = [k for k in range(len(v[2])) if v[2][k] != v[4][k]][:3]
             ctx.violation("RegexMatcher::find_at(input, at) differs from the regex library's find_at on the whole input "
                           "(look-around must be evaluated against the whole input, not the resumption point)",
-                          dict(kind=1302, line=lines[i], case=dict(cfg=c, pattern=pat, input=inp.decode("latin1"), dotall=dot),
+                          dict(kind=1302, line=lines[i], case=dict(cfg=c, pattern=pat, input=inp.decode("latin1"), dotall=dot, whole_line=whole),
                                positions=bad, matcher=[v[2][k] for k in bad], regex_crate=[v[4][k] for k in bad]))
         if not v[1]:
             feat["regex_line_strategy"] = feat.get("regex_line_strategy", 0) + 1
@@ -128,10 +132,10 @@ def regex_cases(ctx, feat):
         idx.append(i)
     mo = vlib.model(1303, mlines)
     for i, ml, m in zip(idx, mlines, mo):
-        c, pat, inp, dot, reply = cases[i]
+        c, pat, inp, dot, reply, whole = cases[i]
         code_res = vlib_to_text(parse_val(co[i])[3])
         mv = parse_val(m) if m.startswith("(") else None
-        desc = dict(cfg=c, pattern=pat, input=inp.decode("latin1"), dotall=dot, reply=reply)
+        desc = dict(cfg=c, pattern=pat, input=inp.decode("latin1"), dotall=dot, reply=reply, whole_line=whole)
         feat["regex_multiline"] = feat.get("regex_multiline", 0) + 1
         ctx.note_case(lines[i], len(parse_val(co[i])[3][1]) > 2)
         if mv is None:
